@@ -1,4 +1,16 @@
 import GardenVerif.Driver.Types
+import GardenVerif.Driver.Parse
+import GardenVerif.Driver.Arith
+import GardenVerif.Driver.LspPos
+import GardenVerif.Driver.LspDispatch
+import GardenVerif.Driver.Machine
+import GardenVerif.Driver.Lex
+import GardenVerif.Driver.Prelude
+import GardenVerif.Driver.Imports
+import GardenVerif.Driver.Format
+import GardenVerif.Driver.Sandbox
+import GardenVerif.Driver.Strings
+import GardenVerif.Driver.Nrepl
 /-!
 Line-protocol driver for the executable models. One request per line on stdin,
 one response line per request on stdout. Imports only `Model` / `Driver` modules
@@ -6,7 +18,7 @@ one response line per request on stdout. Imports only `Model` / `Driver` modules
 -/
 
 def handlers : List (String → String → Option String) :=
-  [DriverTypes.handle]
+  [DriverTypes.handle, DriverParse.handle, DriverLspPos.handle, DriverLspDispatch.handle, DriverMachine.handle, DriverLex.handle, DriverPrelude.handle, DriverImports.handle, DriverFormat.handle, DriverSandbox.handle, DriverStrings.handle, DriverArith.handle, DriverNrepl.handle]
 
 def dispatch (line : String) : String :=
   let line := line.trimAscii.toString
